@@ -345,10 +345,15 @@ Inductive case :=
 | KStress (nops : nat) (hung : bool) (final : Z)           (* nops begin/cease pairs vs waiters *)
 | KDestroy (kinds : list bool) (finals : Z) (hung : bool)  (* ops through the real swamp auto-destroy path, run one after another *)
 | KPoll (nlocks : nat) (hung : bool)                       (* safeops: nlocks Lock/Unlock pairs vs WaitForUnlock *)
-| KSummon (nreq : nat) (ncancelled : nat) (hung : bool).   (* nreq requests queued in hydra.SummonSwamp's per-name slot,
-                                                              ncancelled contexts cancelled; hung: a request was still asleep
-                                                              in the queue after every summon in flight had finished
-                                                              (the slot protocol itself is Conc/Summon.v) *)
+| KSummon (nreq : nat) (ncancelled : nat) (hung : bool) (later_hung : bool)
+     (* nreq requests queued in hydra.SummonSwamp's per-name slot, ncancelled contexts cancelled; hung: a
+        request was still asleep in the queue after every summon in flight had finished; later_hung: all of
+        them returned but a later request for the same name did not (the slot protocol is Conc/Summon.v) *)
+| KInflight (dop iop : nat) (op_hung destroy_hung third_hung : bool) (final : Z).
+     (* request R2 holds a vigil; request R1 empties the swamp (auto-destroy) and waits in Destroy's drain;
+        R2 then performs operation iop under its vigil and ceases; R3 summons the closing name.
+        op_hung: R2's operation did not return (so the drain can never end); destroy_hung: R1 did not return
+        after every vigil was ceased; third_hung: R3 did not return; final: the vigil counter afterwards *)
 
 (* model prediction for a sequential run of the auto-destroy programs: every op runs to the end *)
 Fixpoint dseq (rebal : bool) (s : dst) (i : nat) (fuel : nat) : option dst :=
@@ -379,7 +384,10 @@ Definition check_case (k : case) : N :=
            | None => 1%N
            end
   | KPoll _ hung => if hung then 6%N else 0%N
-  | KSummon _ _ hung => if hung then 9%N else 0%N
+  | KSummon _ _ hung later => if hung then 9%N else if later then 11%N else 0%N
+  | KInflight _ _ oh dh th final =>
+      if oh then 10%N else if dh then 4%N else if th then 12%N
+      else if (final <? 0)%Z then 5%N else if Z.eqb final 0 then 0%N else 3%N
   end.
 
 Definition check_all (cases : list case) : list verdict := check_cases check_case cases.
